@@ -415,12 +415,32 @@ def check(ctx, rep):
                 by_cmd['other'][0] in f.reachable([0])
             rep.expect('R04.b', ok, 'then|sequencing', 'host(other) is reachable only through the Ready edge of awaiting host(self)',
                        'Command::then can start hosting `other` before the future hosting `self` has completed')
-    for fn_name, want in (('and', {'other'}), ('all', {'c'}), ('then', {'self', 'other'}), ('from_iter', None)):
-        sites = host_sites(fn_name)
-        hosted = set()
+    def hosted_of(fn_name):
+        """(sites, what is hosted) judged on the method's family — its body, its closures, those of helpers spliced into them: each
+        hosted command is traced back through the captures to a parameter of the method (its position) or to an item taken from one"""
+        roots = [r for r in core.built if r.kind == 'AssocFn' and r.name == fn_name and path_matches(r.assoc.get('self_adt'), 'crux_core::command::Command')
+                 and not r.assoc.get('trait')]
+        if len(roots) != 1:
+            return [], set()
+        r = roots[0]
+        sites_, what = [], set()
+        for g in [r] + core.closures_of(r):
+            for bb, t in g.calls(HOST):
+                sites_.append((g, bb, t))
+                for h, o in _prims.trace_to_root(core, g, t['args'][0], r):
+                    if h is r and o.kind == 'arg':
+                        what.add(o.n)
+                    elif o.kind == 'call' and last_seg(o.term.get('callee') or '') == 'next':
+                        what.add('item')
+                    elif h.kind == 'Closure' and o.kind == 'arg' and o.n >= 2:
+                        what.add('item')      # the parameter of a closure run for every item (for_each / fold)
+                    else:
+                        what.add('?')
+        return sites_, what
+    for fn_name, want in (('and', {2}), ('all', {'item'}), ('then', {1, 2}), ('from_iter', None)):
+        sites, hosted = hosted_of(fn_name) if want is not None else (host_sites(fn_name), set())
         chan_ok = True
         for g, bb, t in sites:
-            hosted |= upvar_names(g, t['args'][0]) or {'<param>'}
             eff = c01.field_of_receiver(g, t['args'][1], through_clone=True)
             evt = c01.field_of_receiver(g, t['args'][2], through_clone=True)
             if not any('effects' in x for x in eff) or not any('events' in x for x in evt) or any('events' in x for x in eff):
@@ -438,10 +458,10 @@ def check(ctx, rep):
             ok = len(fs) == 1 and any(True for _ in fs[0].calls('crux_core::command::Command::all'))
             rep.expect('R04.c', ok, key, 'FromIterator delegates to Command::all', 'Command::from_iter no longer delegates to Command::all')
             continue
-        rep.expect('R04.c', bool(sites) and (want is None or want <= hosted) and chan_ok, key,
-                   'sub-commands %s are hosted on the parent\'s effect and event senders' % sorted(hosted),
-                   'Command::%s: hosted sub-commands %s (expected %s); channels wired to (effects, events): %s' % (
-                       fn_name, sorted(hosted), sorted(want or []), chan_ok))
+        rep.expect('R04.c', bool(sites) and (want is None or (want <= hosted and '?' not in hosted)) and chan_ok, key,
+                   'sub-commands %s (parameter positions / items) are hosted on the parent\'s effect and event senders' % sorted(map(str, hosted)),
+                   'Command::%s: hosted sub-commands %s (expected %s: parameter positions / items of the argument); channels wired to (effects, events): %s' % (
+                       fn_name, sorted(map(str, hosted)), sorted(map(str, want or [])), chan_ok))
     # Command::all iterates its argument directly (no skip/take/filter in between), and spawns inside the loop
     fs = [f for f in core.built if f.kind == 'AssocFn' and f.name == 'all' and path_matches(f.assoc.get('self_adt'), 'crux_core::command::Command')]
     if len(fs) != 1:
